@@ -389,3 +389,79 @@ Example C07_set_order_hazard :
     = [(1, []); (0, [mkflt "x" (Some 3) (Some [0])])] /\
   fst (plan_call exg 8 exwg (with_hz (cl [0] true false true None) 0)) = exwg.
 Proof. exact set_order_hazard_l. Qed.
+
+(* ============================================================================================================
+   Round 6: caller-owned Link OBJECTS with class references, polymorphic resolution (Model/ArgsLinks.v on top of the
+   matching rule of C18, Model/LinkSel.find_matching).  Names are qualified: Model/Args.v has its own (value) `link`.
+   A Link is a heap cell; the Engine's private set (`set(links)`, `links.add(feature.link)`) holds ADDRESSES of the
+   caller's cells; the resolver reads them for every ordered pair of distinct parents of every child.  `wb` is what the
+   resolver stores back into a matched Link: `wb_none` (the code as it is) or any other read-only write-back.
+   ============================================================================================================ *)
+Require MV.Model.LinkSel MV.Model.ArgsLinks MV.Proofs.ArgsLinksP.
+Module L := MV.Model.ArgsLinks.
+Module LP := MV.Proofs.ArgsLinksP.
+
+(* every call leaves every caller-owned Link object unchanged (all hierarchies, stores, calls, set orders) *)
+Theorem links_frame : forall mro h c, fst (L.plan_links mro L.wb_none h c) = h.
+Proof. intros mro; exact (LP.links_frame_l mro L.wb_none LP.wb_none_read_only). Qed.
+Print Assumptions links_frame.
+
+Theorem links_frame_history : forall mro cs h, L.run_calls mro L.wb_none h cs = h.
+Proof. intros mro; exact (LP.links_frame_history_l mro L.wb_none LP.wb_none_read_only). Qed.
+Print Assumptions links_frame_history.
+
+(* resolution is a read-only function of (values of the links given, requested pairs): the outcome of a call written
+   without any store *)
+Theorem link_resolution_reads_values : forall mro h c,
+  snd (L.plan_links mro L.wb_none h c)
+  = L.plan_vals mro (map (L.lget h) (L.lc_set c)) (map (L.lget h) (L.lc_feat c)) (L.lc_pairs c).
+Proof. intros mro; exact (LP.plan_links_reads_values_l mro L.wb_none LP.wb_none_read_only). Qed.
+Print Assumptions link_resolution_reads_values.
+
+(* after ANY history of calls over ANY concrete pairs, a call with the SAME Link objects has the outcome of the call that
+   is given equal-valued Link objects in any other store ... *)
+Theorem polymorphic_link_reuse : forall mro h0 pre c h' c',
+  map (L.lget h') (L.lc_set c') = map (L.lget h0) (L.lc_set c) ->
+  map (L.lget h') (L.lc_feat c') = map (L.lget h0) (L.lc_feat c) ->
+  L.lc_pairs c' = L.lc_pairs c ->
+  snd (L.plan_links mro L.wb_none (L.run_calls mro L.wb_none h0 pre) c) = snd (L.plan_links mro L.wb_none h' c').
+Proof. intros mro; exact (LP.polymorphic_link_reuse_l mro L.wb_none LP.wb_none_read_only). Qed.
+Print Assumptions polymorphic_link_reuse.
+
+(* ... in particular of the call whose Link objects are freshly constructed equal ones (allocated behind the current store),
+   and it leaves the pristine store *)
+Theorem polymorphic_link_reuse_fresh : forall mro h0 pre c,
+  let h := L.run_calls mro L.wb_none h0 pre in
+  snd (L.plan_links mro L.wb_none h c) = snd (L.plan_links mro L.wb_none (h ++ h0)%list (L.shift_call (List.length h) c))
+  /\ fst (L.plan_links mro L.wb_none h c) = h0.
+Proof. intros mro; exact (LP.polymorphic_link_reuse_fresh_l mro L.wb_none LP.wb_none_read_only). Qed.
+Print Assumptions polymorphic_link_reuse_fresh.
+
+(* the same three statements hold for every read-only write-back, and read-only is necessary: a write-back that changes
+   a matched link is visible in the caller's store after one call *)
+Theorem links_frame_any_read_only : forall mro wb, LP.read_only wb -> forall h c, fst (L.plan_links mro wb h c) = h.
+Proof. exact LP.links_frame_l. Qed.
+Print Assumptions links_frame_any_read_only.
+
+Theorem writeback_visible : forall mro (wb : L.writeback) l lf rf,
+  MV.Model.LinkSel.validate_rejects [l] = false -> In l (MV.Model.LinkSel.find_matching mro [l] lf rf) -> wb l lf rf <> l ->
+  fst (L.plan_links mro wb [l] {| L.lc_set := [0%nat]; L.lc_feat := []; L.lc_pairs := [(lf, rf)] |}) <> [l].
+Proof. exact LP.writeback_visible_l. Qed.
+Print Assumptions writeback_visible.
+
+(* In-place resolution (seeded/C07_r6: a polymorphically matched link is bound to the concrete classes): BaseA=0, BaseB=1,
+   A1=2, B1=3, A2=4, B2=5, ONE Link(BaseA, BaseB) passed to a call over (A1, B1) and then to a call over (A2, B2): the first
+   call writes the caller's Link, the second call plans NO join with the re-used object, the join with a pristine one;
+   with the read-only resolver the second call matches the caller's (unchanged) link. *)
+Theorem inplace_bind_refuted :
+  let mro := MV.Model.LinkSel.mro_of LP.demo_hier in
+  let c1 := LP.demo_call 2%nat 3%nat in
+  let c2 := LP.demo_call 4%nat 5%nat in
+  fst (L.plan_links mro L.wb_bind [LP.demo_link] c1) <> [LP.demo_link]
+  /\ snd (L.plan_links mro L.wb_bind (L.run_calls mro L.wb_bind [LP.demo_link] [c1]) c2) = L.LPlanned [[]; []]
+  /\ snd (L.plan_links mro L.wb_bind [LP.demo_link] c2)
+     = L.LPlanned [[{| MV.Model.LinkSel.jt := MV.Model.LinkSel.INNER; MV.Model.LinkSel.lfg := 4%nat; MV.Model.LinkSel.rfg := 5%nat;
+                      MV.Model.LinkSel.lidx := ["_idx"%string]; MV.Model.LinkSel.ridx := ["_idx"%string] |}]; []]
+  /\ snd (L.plan_links mro L.wb_none (L.run_calls mro L.wb_none [LP.demo_link] [c1]) c2) = L.LPlanned [[LP.demo_link]; []].
+Proof. exact LP.inplace_bind_refuted_l. Qed.
+Print Assumptions inplace_bind_refuted.
